@@ -160,6 +160,17 @@ theorem delivered_exactly_history (cfg : Cfg) (hall : cfg.rangeAll = true) (ops 
     DeliveredExactly (run cfg {} ops).registered b ((run cfg {} ops).deliver cfg b).2 = true :=
   Lemmas.delivered_exactly cfg hall _ (Lemmas.run_wf cfg {} ops Lemmas.empty_wf) b
 
+/-- **What "put into its mailbox" means**: after a delivery, in every REST agent exactly the clients
+registered for the bundle's destination have the bundle appended to their mailbox; all other
+mailboxes and all registrations are unchanged. -/
+theorem delivered_into_mailboxes (cfg : Cfg) (hall : cfg.rangeAll = true) (m : Mux) (hwf : m.WF)
+    (b : Bundle) (i : Nat) (ra : Rest) (h : m.child i = some (.rest ra)) :
+    ∃ ra', (m.deliver cfg b).1.child i = some (.rest ra') ∧ ra'.clients = ra.clients ∧
+      ∀ u, aload u ra'.mailbox =
+        if aload u ra.clients = some b.dest then some ((aload u ra.mailbox).getD [] ++ [b])
+        else aload u ra.mailbox :=
+  Lemmas.deliver_mailbox cfg hall m hwf b i ra h
+
 /-- `MuxAgent.Endpoints()` (and so `AgentManager.HasEndpoint`, `Core.HasEndpoint`) knows exactly
 the registered endpoints. -/
 theorem has_endpoint_iff (cfg : Cfg) (hall : cfg.rangeAll = true) (m : Mux) (e : Eid) :
